@@ -20,29 +20,38 @@ from html.parser import HTMLParser
 from .common import Ctx, Driver, rng_for
 
 MANIFEST = dict(
-    text=("Lean theorems (explicit exceptions, all inputs): the constructor's retry loop at the level of object fields \u2014 what a feed "
-          "starts from is a function of the strategy and of the fields no attempt writes (reset_absorbs), after any number of rejected "
-          "strategies the result is field for field a clean attempt of the accepting one (retry_first_accept), all rejected = "
-          "ParserRejectedMarkup (retry_all_reject), foreign exceptions propagate (retry_raise_propagates, retry_by_index); over the "
-          "field tables instrumented from the live objects every attribute a feed touches is re-assigned per attempt "
-          "(feed_touches_reassigned, header_and_reset_fields); the pre-parse heuristics are total on every str incl. lone surrogates and "
-          "every bytes (heuristics_total) and the unrepaired mirror fails exactly on short tag-less non-URL str with a surrogate "
-          "(heuristicsOld_error_iff, heuristicsOld_fails, heuristics_agree_old); handle_charref hands a non-empty text to handle_data for "
-          "every name and every one-byte decoder behaviour (charref_total, charref_spec, charrefSpec_identity, cp1252_table over the live "
-          "codec, handleCharrefOld_errors, charref_agree_old, witnesses handleCharrefOld_fails_long_decimal/_codec); UnicodeDammit's two "
-          "passes end in text whenever one non-'ascii' candidate decodes with errors=replace (dammit_some_of_fallback) and prepare_markup "
-          "yields one strategy or raises ParserRejectedMarkup (prepare_outcome); feed wraps AssertionError/ValueError (feed_outcome) and "
-          "constructor_outcome: tree or ParserRejectedMarkup GIVEN that CPython's tokenizer raises nothing else (measured hypothesis; "
-          "foreign_exception_propagates shows the model hides nothing). Tie: generated inputs of the quantifier's classes through the real "
-          "constructor (outcome class, warning, every character reference) against the model, an instrumented UnicodeDammit against the "
-          "model of its passes, fault injection through a harness TreeBuilder, and a direct oracle (no other exception; tree well linked, "
-          "renderable, searchable, copyable)."),
+    text=("Lean theorems with explicit Python exception classes (the class lattice = the live __mro__s, mro_table). ENVELOPE: every operation "
+          "below the constructor that can raise is a primitive free to raise any class (UnicodeDammit/EncodingDetector generator, codecs.lookup, "
+          "str(bytes,codec,errors), Logger.warning, the declared_html_encoding property, warnings.warn, reset/initialize_soup, the parser object, "
+          "both tokenizer phases feed/close, every handle_* callback, int()/chr()/one-byte decodes, the end-of-input flush) and every try/except "
+          "of the repository is a clause (Code); `envelope`: for every clause variant that Covers (decidable) the recorded kinds, every behaviour "
+          "of the primitives within them, every object, every str/bytes markup, the constructor ends in a tree or ParserRejectedMarkup "
+          "(envelope_live for the working tree, v4130_does_not_cover for 4.13.0 as shipped); tightness: lookup_escapes, decode_escapes, "
+          "generator_escapes (PEP 479 included), feed_converts, tokenizer_escapes, close_must_be_guarded, convert_clause_must_be_broad; "
+          "injection_table: the whole primitive-level injection matrix of the LIVE constructor (16 primitives x 33 classes, run by the translator) "
+          "equals the model's prediction. STATE: reset_absorbs, retry_first_accept, retry_all_reject, retry_raise_propagates, retry_by_index, "
+          "retry_ok_state and constructE_ok_state (whenever the constructor returns, on any call path, the object is field for field one complete "
+          "clean accepted attempt; machineE_wf derives the frame conditions from the callbacks'), feed_touches_reassigned / "
+          "header_and_reset_fields over the field tables instrumented from the live objects. PIECES: heuristics_total, heuristicsOld_error_iff, "
+          "heuristics_agree_old; charref_total, charref_spec, charrefSpec_identity, cp1252_table, handleCharrefOld_errors, charref_agree_old, "
+          "charref_envelope_live/_v4130/_spec (the concrete conversion is the envelope model at CPython's int/chr/codecs); "
+          "dammit_some_of_fallback, dammit_envelope_refines, dammitE_some_of_fallback, prepare_outcome; constructor_outcome, feed_outcome; witnesses "
+          "on the unrepaired mirrors; live_code_returns_on_witnesses. Tie: generated inputs of the quantifier's classes through the real "
+          "constructor (outcome class, locator warning, every character reference) against the model; every primitive recorded on every input "
+          "(classes raised must be recorded kinds); injection of every class at every primitive on several documents against `predict`; "
+          "UnicodeDammit with individual lookups/decodings/the generator/the log call made to raise against `dammitE`; an instrumented "
+          "UnicodeDammit against the model of its passes; fault injection through a harness TreeBuilder and across documents (shared builder); "
+          "direct oracle (no other exception; tree well linked, renderable, searchable, copyable; ParserRejectedMarkup only with a cause)."),
     design="7/C06",
-    note=("PARTIAL: CPython's html.parser tokenizer and codecs are outside the repository; that the tokenizer raises nothing but "
-          "AssertionError/ValueError is measured on every generated input (plain HTMLParser run), not proved. Non-str/bytes markup "
-          "(TypeError by design, pinned by test_invalid_markup_type) and non-str encoding arguments are outside the quantifier and only "
-          "recorded. Deep nesting is kept below 200 in the post-construction checks (C11's recursion findings)."),
-    technique="Lean 4 proof with explicit exceptions + generated tables from the live objects + differential correspondence + direct Python oracle + fault injection",
+    note=("PARTIAL. Trusted residue, named: `Prims.Within Gen.C06.recorded` - CPython's codecs.lookup raises only LookupError/ValueError/"
+          "UnicodeEncodeError; str(bytes,codec,errors) only LookupError/ValueError/UnicodeEncodeError/UnicodeDecodeError/UnicodeError; html.parser's "
+          "goahead only AssertionError/ValueError; int() only ValueError; chr() only ValueError/OverflowError; one-byte decodes only "
+          "UnicodeDecodeError/UnicodeError; warnings.warn (filters not 'error'), Logger.warning, find_declared_encoding, reset, the parser "
+          "constructor and the tree-building callbacks (C03/C04's models) never raise. Measured on every run: each primitive is wrapped and the exact "
+          "classes it raises are compared with these lists. That the tree is well linked for every event sequence is C03's theorem "
+          "(parsed_document_well_linked); renderable/searchable/copyable is the Python oracle here and C05/C08/C10/C11/C12's theorems. Non-str/bytes "
+          "markup (TypeError by design) and non-str encoding arguments are outside the quantifier and only recorded."),
+    technique="Lean 4 proof with explicit exception classes + generated tables from the live objects (field sets, MROs, injection matrix) + differential correspondence + direct Python oracle + fault injection at builder and primitive level",
 )
 
 logging.disable(logging.CRITICAL)
@@ -78,16 +87,30 @@ BOGUS = ["no-such", "", " ", "utf-9", "utf_8_", "\x00", "a" * 300, "\u00e9", "\u
 # --------------------------------------------------------------------------------------------
 # input encoding for transport / replay
 # --------------------------------------------------------------------------------------------
+class StrSub(str):
+    """a str subclass as markup ("any str value")"""
+
+
+class BytesSub(bytes):
+    """a bytes subclass as markup"""
+
+
 def enc_markup(x):
+    sub = {"sub": type(x).__name__} if type(x) not in (str, bytes) else {}
     if isinstance(x, bytes):
-        return {"bytes": x.hex()}
-    return {"str": [ord(c) for c in x]}
+        return {"bytes": bytes(x).hex()} | sub
+    return {"str": [ord(c) for c in x]} | sub
 
 
 def dec_markup(d):
     if "bytes" in d:
-        return bytes.fromhex(d["bytes"])
-    return "".join(chr(c) for c in d["str"])
+        b = bytes.fromhex(d["bytes"])
+        return BytesSub(b) if d.get("sub") else b
+    t = "".join(chr(c) for c in d["str"])
+    if d.get("sub") == "NavigableString":
+        from bs4.element import NavigableString
+        return NavigableString(t)
+    return StrSub(t) if d.get("sub") else t
 
 
 def enc_kwargs(kw):
@@ -95,8 +118,9 @@ def enc_kwargs(kw):
     for k, v in kw.items():
         if isinstance(v, str):
             out[k] = {"str": [ord(c) for c in v]}
-        elif isinstance(v, (list, tuple)):
-            out[k] = {"list": [[ord(c) for c in s] for s in v]}
+        elif isinstance(v, (list, tuple, set, frozenset, dict)):
+            out[k] = {"list": [[ord(c) for c in s] for s in sorted(v)] if not isinstance(v, (list, tuple)) else [[ord(c) for c in s] for s in v],
+                      "form": type(v).__name__}
         elif v is None:
             out[k] = None
         else:
@@ -324,7 +348,7 @@ def run_constructor(markup, kwargs, post=True):
             rec["half_built"] = "markup/builder.soup not cleared after a successful parse"
         rec["orig"] = soup.original_encoding
         rec["repl"] = soup.contains_replacement_characters
-        if post and depth < 200:
+        if post and depth <= 6000:
             rec["post"] = post_ops(soup)
     return rec
 
@@ -353,9 +377,18 @@ def eval_case(case):
     rec = run_constructor(markup, kwargs, post)
     rec["stream"] = stream
     st = strategy_of(markup, kwargs)
+    has_text = True if isinstance(markup, str) else dammit_has_text(markup, kwargs)
+    rec["has_text"] = has_text
     text = None if st is None else st[0]
     tok, names = ("ok", []) if text is None else plain_tokenize(text)
     rec["tok"] = tok
+    # recorded facts about where CPython's tokenizer gives up: AssertionError only behind a "<!", ValueError only for a decimal
+    # reference beyond the digit limit inside a tag
+    rec["tok_fact"] = None
+    if tok == "assert" and "<!" not in text:
+        rec["tok_fact"] = "AssertionError without any '<!' in the text"
+    if tok == "value" and not re.search(r"<[^<>]*&#[0-9]{4301,}", text):
+        rec["tok_fact"] = "ValueError without a decimal reference of more than 4300 digits inside a tag"
     rec["names_ok"] = all(NAME_RE.match(n) for n in names)
     rec["nrefs"] = len(names)
     rec["longref"] = any(len(n) > 4300 for n in names)
@@ -367,7 +400,7 @@ def eval_case(case):
     tab = orig_table(enc) if need_table else "-"
     tokc = tok if tok in ("ok", "assert", "value") else "other"
     model_kind = "ctor"
-    lines.append((f"c06 {model_kind} {kind} {cps_tok(units[:300])} {'some' if st is not None else 'none'} {tokc} {tab} "
+    lines.append((f"c06 {model_kind} {kind} {cps_tok(units[:300])} {'some' if has_text else 'none'} {tokc} {tab} "
                   f"{';'.join(cps_tok([ord(c) for c in n]) for n in names) if names else '-'}",
                   {"tree": "tree", "prm": "prm"}.get(rec["outcome"], "err " + rec["outcome"].split(":")[-1]), "outcome"))
     if len(units) <= 300 and not rec["outcome"].startswith("other"):
@@ -383,8 +416,29 @@ def eval_case(case):
     return rec, lines
 
 
+def dammit_has_text(markup, kwargs):
+    """Does UnicodeDammit itself end with text for these bytes (independently of how prepare_markup reads its result)?"""
+    from bs4.dammit import UnicodeDammit
+    if markup == b"":
+        return True
+    fe = kwargs.get("from_encoding") or None
+    try:
+        with warnings.catch_warnings():
+            warnings.simplefilter("ignore")
+            d = UnicodeDammit(markup, known_definite_encodings=[fe] if fe else [], user_encodings=[], is_html=True,
+                              exclude_encodings=kwargs.get("exclude_encodings"))
+        return getattr(d, "unicode_markup", None) is not None
+    except Exception:  # noqa (the constructor raises the same: reported by the outcome oracle)
+        return None
+
+
 def eval_chunk(chunk):
-    return [eval_case(c) for c in chunk]
+    """worker: the cases of one chunk, with every primitive of the call path recorded (exact classes raised)"""
+    from . import c06_envelope as E
+    seen = {}
+    with E.record(seen):
+        out = [eval_case(c) for c in chunk]
+    return out, {pt: sorted(E.proto_name(c) for c in cs) for pt, cs in seen.items()}
 
 
 # --------------------------------------------------------------------------------------------
@@ -529,9 +583,10 @@ def gen_structural(ctx):
         out.append(("deep", "<a>" * n + "x" + "</a>" * n, {}, True))
         out.append(("deep", "<b><i>" * (n // 2 + 1) + "</b></i>" * (n // 2 + 1), {}, True))
     for n in (1000, 5000, 20000):
-        out.append(("deep-ctor-only", "<a>" * n, {}, False))
-        out.append(("deep-ctor-only", "<p>t" * n, {}, False))
-        out.append(("deep-ctor-only", "</a>" * n, {}, False))
+        out.append(("deep-nesting", "<a>" * n, {}, n <= 5000))
+        out.append(("deep-nesting", "<p>t" * n, {}, n <= 5000))
+        out.append(("deep-nesting", "<a>x" * (n // 2) + "</a>y" * (n // 2), {}, n <= 5000))
+        out.append(("deep-nesting", "</a>" * n, {}, True))
     for n in (100, 1000, 70000):
         out.append(("long", "<" + "a" * n + ">", {}, True))
         out.append(("long", "<a " + "b" * n + "=1>", {}, True))
@@ -610,6 +665,22 @@ def gen_heuristics(ctx):
     return out
 
 
+def gen_subclasses(ctx):
+    """str / bytes SUBCLASS instances as markup (the heuristics, prepare_markup and UnicodeDammit test with isinstance)"""
+    from bs4.element import NavigableString
+    out = []
+    strs = ["", "a.html", "index.HTM", "http://x/y", "a\udfffb.txt", "C:/x.xml", "plain", "<p>x</p>", "&#65;", DOCS[0], DOCS[2], "a" * 256 + ".txt"]
+    for t in strs:
+        out.append(("subclass", StrSub(t), {}, True))
+        out.append(("subclass", NavigableString(t), {}, True))
+        out.append(("subclass", StrSub(t), {"from_encoding": "utf-8"}, True))
+    for b in [b"", b"a.html", b"http://x", b"<p>\xe9</p>", b"\xff\xfe<\x00", DOCS[0].encode(), b"\xef\xbb\xbf", b"x.txt"]:
+        out.append(("subclass", BytesSub(b), {}, True))
+        out.append(("subclass", BytesSub(b), {"from_encoding": "latin-1"}, True))
+        out.append(("subclass", BytesSub(b), {"exclude_encodings": ("utf-8", "windows-1252")}, True))
+    return out
+
+
 def enc_args(r):
     """a constructor encoding-argument shape"""
     kw = {}
@@ -628,6 +699,10 @@ def enc_args(r):
         kw["exclude_encodings"] = r.choice(["utf-8", "", "windows-1252"])       # a plain string instead of a list
     elif c < 0.55:
         kw["exclude_encodings"] = tuple(r.choice(pool) for _ in range(2))
+    elif c < 0.6:
+        kw["exclude_encodings"] = frozenset(r.choice(pool) for _ in range(3))
+    elif c < 0.63:
+        kw["exclude_encodings"] = {r.choice(pool): 1 for _ in range(2)}          # a mapping: iterated by key
     return kw
 
 
@@ -825,12 +900,15 @@ def stream_dammit(ctx, drv, byte_cases):
         ctx.case(("D", markup, repr(kwargs)) if nontrivial else None)
         ctx.count("dammit:" + got.split(" empty")[0].split(" enc")[0] + (":repl" if "repl=1" in got else ""))
         # direct oracle: None only if no candidate decodes even with replacement
-        if d.unicode_markup is None and any(row[1] != "n" for c, row in table.items() if any(e != "ascii" and d.find_codec(e) == c for e in encs)):
+        if (d.unicode_markup is None and any(row[1] != "n" for c, row in table.items() if any(e != "ascii" and d.find_codec(e) == c for e in encs))
+                and not capped(ctx, "dammit", "gave-up")):
             ctx.violation("UnicodeDammit gave up although a candidate decodes with errors='replace'", case=cases[-1], observed=got, stream="dammit")
     rep = drv.ask(lines)
     for l, a, b, c in zip(lines, impl, rep, cases):
         if a != b:
             ctx.corr_disagreements += 1
+            if capped(ctx, "dammit", "disagree"):
+                continue
             ctx.violation("model and implementation disagree on UnicodeDammit's passes", case=c | {"line": l}, observed=a, model=b, stream="dammit",
                           no_failing_input=True)
     ctx.count("dammit:requests", len(lines))
@@ -1011,6 +1089,328 @@ def stream_fault(ctx, drv):
 
 
 # --------------------------------------------------------------------------------------------
+# the envelope: recorded kinds, injection at the primitives, the class hierarchy
+# --------------------------------------------------------------------------------------------
+def recorded_kinds():
+    """translate/parts_c06.py RECORDED as protocol names per harness point"""
+    import importlib.util
+    path = os.path.join(os.path.dirname(os.path.dirname(os.path.abspath(__file__))), "translate", "parts_c06.py")
+    src = open(path).read()
+    a = src.index("RECORDED = {")
+    b = src.index("}\n", a) + 1
+    rec = eval(src[a + len("RECORDED = "):b], {})
+    from . import c06_envelope as E
+    table = E.class_table()
+    names = {k: [E.proto_name(table[c]) for c in v] for k, v in rec.items()}
+    per_point = {}
+    for pt in E.POINTS:
+        key = {"tokFeed": "tokenizer", "tokClose": "tokenizer", "applyData": "callbacks", "applyOther": "callbacks", "endOfInput": "callbacks"}.get(pt, pt)
+        per_point[pt] = names[key]
+    return per_point
+
+
+def check_recorded(ctx, observed, cases):
+    """the trusted residue, measured: every exception class a primitive raised during the construct stream is a recorded kind"""
+    rec = recorded_kinds()
+    for pt, names in sorted(observed.items()):
+        ctx.count(f"primitive-raised:{pt}:" + ",".join(sorted(names)))
+        extra = sorted(set(names) - set(rec.get(pt, [])))
+        if extra:
+            # find an input: re-run the cases with recording until the class shows up at that point
+            from . import c06_envelope as E
+            found = None
+            for (stream, markup, kwargs, post) in cases:
+                seen = {}
+                with E.record(seen):
+                    run_constructor(markup, kwargs, post=False)
+                if any(E.proto_name(c) in extra for c in seen.get(pt, ())):
+                    found = (stream, markup, kwargs)
+                    break
+            case = {"op": "recorded", "point": pt, "classes": extra}
+            if found:
+                case |= {"markup": enc_markup(found[1]), "kwargs": enc_kwargs(found[2]), "shown": describe(found[1])}
+            ctx.violation(f"measured hypothesis broken: the primitive '{pt}' raised {extra}, not among the recorded kinds {rec.get(pt)} "
+                          "(translate/parts_c06.py RECORDED, hypothesis `Prims.Within Gen.C06.recorded` of envelope_live)",
+                          case=case, expected=rec.get(pt), observed=extra, stream="recorded", no_failing_input=True)
+    ctx.extra["primitives_observed_raising"] = {pt: sorted(v) for pt, v in sorted(observed.items())}
+
+
+INJECT_DOCS = {
+    "str": ["<p>&#65;&#x42;&#150;&#300;</p>tail", "<a href='x'>&#7;&#x100;</a><br/>t<b", "t&#129;<i>&#1114112;</i><!--c-->&#x41"],
+    "bytes": [b"<p>caf\xc3\xa9 &#65;&#150;&#300;</p>", b"<html><body>\xe2\x98\x83 &#200;&#x2603;</body></html>", b"plain &#65;&#999; \xc3\xa9 <p>x"],
+    "log": [b"<p>\x81 &#65;</p>", b"\x81\x8d<b>x</b>", b"<i>\xc3\x28\x8f</i>"],
+    "url": ["http://example.com/", "https://x/y.html", "index.html"],
+}
+
+
+def inject_docs(point):
+    if point == "warn":
+        return INJECT_DOCS["url"]
+    if point in ("cands", "lookup", "decode", "declaredProp", "dec1"):
+        return INJECT_DOCS["bytes"]
+    if point == "logWarning":
+        return INJECT_DOCS["log"]
+    return INJECT_DOCS["str"]
+
+
+_HOOKED_DOC = {}
+
+
+def hooked_doc(E, pt, doc):
+    k = (pt, doc)
+    if k not in _HOOKED_DOC:
+        _HOOKED_DOC[k] = E.hooked(pt, doc)
+    return _HOOKED_DOC[k]
+
+
+def stream_inject(ctx, drv):
+    """every primitive x every class x several documents that reach it: what the caller sees, against the model (`predict`) and against the
+    envelope itself (a recorded kind never escapes)"""
+    from . import c06_envelope as E
+    table = E.class_table()
+    classes = list(table.values()) + [E.HarnessError, E.HarnessBaseError]
+    rec = recorded_kinds()
+    lines, impl, cases = [], [], []
+    hooked = E.hooked_points()
+    ctx.extra["injection_points_hooked"] = hooked
+    for pt in E.POINTS:
+        if pt not in hooked:
+            ctx.count(f"inject:unhooked:{pt}")
+            ctx.notes.append(f"injection point '{pt}' could not be hooked in this working tree (the code no longer reaches it through the patched "
+                             "name): not compared on this run")
+            continue
+        for cls in classes:
+            name = E.proto_name(cls)
+            for doc in inject_docs(pt):
+                if not hooked_doc(E, pt, doc):
+                    continue
+                with E.inject(pt, cls):
+                    v = E.verdict(doc)
+                case = {"op": "inject", "point": pt, "class": name, "markup": enc_markup(doc), "shown": describe(doc)}
+                ctx.case(("I", pt, name, doc))
+                ctx.count(f"inject:{pt}:{v.split()[0]}")
+                lines.append(f"c06 inject live {pt} {name}")
+                impl.append(v)
+                cases.append(case)
+                if name in rec[pt] and v.startswith("escapes"):
+                    ctx.violation(f"{name}, a recorded kind of '{pt}', raised there escapes the constructor as {v[8:]} (document {describe(doc)})",
+                                  case=case, expected="a tree or ParserRejectedMarkup", observed=v, stream="inject")
+    # the class hierarchy the clauses rely on
+    hl, hi = [], []
+    for a in classes:
+        for b in classes:
+            hl.append(f"c06 issub {E.proto_name(a)} {E.proto_name(b)}")
+            hi.append("1" if issubclass(a, b) else "0")
+    rep = drv.ask(lines + hl)
+    for l, a, b, c in zip(lines, impl, rep, cases):
+        if a != b:
+            ctx.corr_disagreements += 1
+            if not capped(ctx, "inject", c["point"]):
+                ctx.violation(f"model and implementation disagree on what the caller sees when '{c['point']}' raises {c['class']}",
+                              case=c | {"line": l}, observed=a, model=b, stream="inject", no_failing_input=True)
+    for l, a, b in zip(hl, hi, rep[len(lines):]):
+        if a != b:
+            ctx.corr_disagreements += 1
+            ctx.violation("model and CPython disagree on issubclass", case={"op": "issub", "line": l}, observed=a, model=b, stream="inject",
+                          no_failing_input=True)
+    ctx.count("inject:requests", len(lines))
+    ctx.count("issub:requests", len(hl))
+    ctx.exhaustive_parts.append(f"injection: all {len(E.POINTS)} primitives x all {len(classes)} classes x 3 documents; issubclass on all class pairs")
+
+
+def stream_dammit_raising(ctx, drv, byte_cases):
+    """UnicodeDammit with individual primitive calls made to raise (a spelling's codecs.lookup, one (codec, errors) decoding, the
+    declaration search inside the candidate generator, the log call) against `dammitE`: which exceptions `_codec` and
+    `_convert_from` absorb, what leaves, and how the two passes go on afterwards"""
+    import bs4.dammit as D
+    from bs4.dammit import UnicodeDammit, EncodingDetector
+    from . import c06_envelope as E
+    table = E.class_table()
+    pool = [UnicodeDecodeError, LookupError, ValueError, TypeError, UnicodeError, E.HarnessError, KeyboardInterrupt, E.HarnessBaseError,
+            StopIteration, table["parserRejectedMarkup"], AssertionError, RecursionError, UnicodeEncodeError]
+    hooked = set(E.hooked_points())      # a primitive the code no longer reaches through the patched name gets no injections
+    r = ctx.rng("dammit-raising")
+    sample = [c for c in byte_cases if isinstance(c[1], bytes) and c[1] != b""]
+    r.shuffle(sample)
+    sample = sample[: ctx.n(1200, 20000)]
+    log = logging.getLogger("bs4.dammit")
+    lines, impl, cases = [], [], []
+
+    class Sentinel(Exception):
+        pass
+
+    real_fde = EncodingDetector.__dict__["find_declared_encoding"]
+    real_to_unicode = UnicodeDammit._to_unicode
+    real_codecs = D.codecs
+    for stream, markup, kwargs, _ in sample:
+        fe = kwargs.get("from_encoding") or None
+        ex = kwargs.get("exclude_encodings")
+
+        def make():
+            return UnicodeDammit(markup, known_definite_encodings=[fe] if fe else [], user_encodings=[], is_html=True, exclude_encodings=ex)
+        try:
+            with warnings.catch_warnings():
+                warnings.simplefilter("ignore")
+                d0 = make()
+                encs = list(d0.detector.encodings)
+                # the candidates yielded before the declaration is looked for
+                det = EncodingDetector(markup, [fe] if fe else [], True, ex, [])
+                pre = []
+                EncodingDetector.find_declared_encoding = classmethod(lambda cls, *a, **k: (_ for _ in ()).throw(Sentinel()))
+                try:
+                    for e in det.encodings:
+                        pre.append(e)
+                except Sentinel:
+                    pass
+                finally:
+                    EncodingDetector.find_declared_encoding = real_fde
+        except Exception:  # noqa (reported by the other streams)
+            continue
+        sp_id, codec_id, name_id = {}, {}, {}
+
+        def spellings(e):
+            if not e:
+                return []
+            return [x for x in (UnicodeDammit.CHARSET_ALIASES.get(e, e), e.replace("-", ""), e.replace("-", "_")) if x]
+        plan_lookup, plan_decode = {}, {}
+        gen_raise = r.choice(pool) if r.random() < 0.12 else None
+        log_raise = r.choice(pool) if r.random() < 0.12 else None
+        if "cands" not in hooked:
+            gen_raise = None
+        if "logWarning" not in hooked:
+            log_raise = None
+        spell_rows, look_rows, canon_rows, low_rows, tab_rows = [], [], [], [], []
+        for e in encs:
+            name_id.setdefault(e, len(name_id) + 1)
+            sps = spellings(e)
+            for x in sps:
+                if x not in sp_id:
+                    sp_id[x] = len(sp_id) + 1
+                    if r.random() < 0.15 and "lookup" in hooked:
+                        plan_lookup[x] = r.choice(pool)
+                        look_rows.append(f"{sp_id[x]}:!{E.proto_name(plan_lookup[x])}")
+                    else:
+                        try:
+                            real_codecs.lookup(x)
+                            look_rows.append(f"{sp_id[x]}:ok")
+                        except Exception as exn:  # noqa
+                            look_rows.append(f"{sp_id[x]}:!{E.proto_name(type(exn))}")
+                    codec_id.setdefault(x.lower(), len(codec_id) + 1)
+                    canon_rows.append(f"{sp_id[x]}:{codec_id[x.lower()]}")
+            spell_rows.append(f"{name_id[e]}:{'.'.join(str(sp_id[x]) for x in sps)}")
+            if e:
+                codec_id.setdefault(e.lower(), len(codec_id) + 1)
+                low_rows.append(f"{name_id[e]}:{codec_id[e.lower()]}")
+        for c, cid in codec_id.items():
+            row = []
+            for errors in ("strict", "replace"):
+                if r.random() < 0.25 and "decode" in hooked:
+                    plan_decode[(c, errors)] = r.choice(pool)
+                    row.append("!" + E.proto_name(plan_decode[(c, errors)]))
+                else:
+                    try:
+                        u = str(d0.markup, c, errors)
+                        row.append("z" if u == "" else "t")
+                    except Exception as exn:  # noqa
+                        row.append("!" + E.proto_name(type(exn)))
+            tab_rows.append(f"{cid}:{row[0]}:{row[1]}")
+        if gen_raise is not None:
+            cand_tok = ",".join([str(name_id[e]) for e in pre] + ["!" + E.proto_name(gen_raise)])
+        else:
+            cand_tok = ",".join(str(name_id[e]) for e in encs) or "-"
+        # ---- the real code under the same plan
+        D.codecs = E._Shim(real_codecs, lookup=lambda nm: (_ for _ in ()).throw(E.make_exc(plan_lookup[nm])) if nm in plan_lookup else real_codecs.lookup(nm))
+        UnicodeDammit._to_unicode = (lambda self, data, encoding, errors="strict":
+                                     (_ for _ in ()).throw(E.make_exc(plan_decode[(encoding, errors)])) if (encoding, errors) in plan_decode
+                                     else real_to_unicode(self, data, encoding, errors))
+        if gen_raise is not None:
+            EncodingDetector.find_declared_encoding = classmethod(lambda cls, *a, **k: (_ for _ in ()).throw(E.make_exc(gen_raise)))
+        if log_raise is not None:
+            log.warning = lambda *a, **k: (_ for _ in ()).throw(E.make_exc(log_raise))
+        try:
+            with warnings.catch_warnings():
+                warnings.simplefilter("ignore")
+                d = make()
+            if d.unicode_markup is None:
+                got = f"none repl={1 if d.contains_replacement_characters else 0}"
+            else:
+                got = (f"some enc={codec_id.get(d.original_encoding, 0)} repl={1 if d.contains_replacement_characters else 0} "
+                       f"empty={1 if d.unicode_markup == '' else 0}")
+        except BaseException as exn:  # noqa
+            got = "escapes " + E.proto_name(type(exn))
+        finally:
+            D.codecs = real_codecs
+            UnicodeDammit._to_unicode = real_to_unicode
+            EncodingDetector.find_declared_encoding = real_fde
+            if "warning" in vars(log):
+                del log.warning
+        ascii_ids = ",".join(str(name_id[e]) for e in name_id if e == "ascii") or "-"
+        line = (f"c06 dammite live {cand_tok} {';'.join(spell_rows) or '-'} {';'.join(look_rows) or '-'} {';'.join(canon_rows) or '-'} "
+                f"{';'.join(low_rows) or '-'} {';'.join(tab_rows) or '-'} {ascii_ids} {'ok' if log_raise is None else '!' + E.proto_name(log_raise)}")
+        lines.append(line)
+        impl.append(got)
+        cases.append({"op": "dammit-raising", "markup": enc_markup(markup), "kwargs": enc_kwargs(kwargs), "encodings": encs,
+                      "lookup_raises": {k: v.__name__ for k, v in plan_lookup.items()},
+                      "decode_raises": {f"{k[0]}/{k[1]}": v.__name__ for k, v in plan_decode.items()},
+                      "generator_raises": gen_raise.__name__ if gen_raise else None, "log_raises": log_raise.__name__ if log_raise else None})
+        ctx.case(("DR", markup, repr(sorted(kwargs.items(), key=str)), line) if (plan_lookup or plan_decode or gen_raise or log_raise) else None)
+        ctx.count("dammit-raising:" + got.split()[0])
+    rep = drv.ask(lines)
+    for l, a, b, c in zip(lines, impl, rep, cases):
+        if a != b:
+            ctx.corr_disagreements += 1
+            if capped(ctx, "dammit-raising", "disagree"):
+                continue
+            ctx.violation("model and implementation disagree on UnicodeDammit under raising primitives (which exceptions are absorbed / leave)",
+                          case=c | {"line": l}, observed=a, model=b, stream="dammit-raising", no_failing_input=True)
+    ctx.count("dammit-raising:requests", len(lines))
+
+
+SEQUEL_POISON = ["<br><p>a<![x]>", "<p>text only <![x]", "<pre>\n k<b><![x]", "<a href=\"&#" + "9" * 4301 + ";\">x</a>"]
+SEQUEL_DOCS = ["<p>a</br>b</p>", "x</br></p>y<br>z</br>", "<pre>\n p</pre> <b> </b>", "<br/></br><hr></hr>t", "text"]
+
+
+def stream_sequel(ctx):
+    """nothing of a rejected document survives into the NEXT document: same process, fresh builder and shared builder instance"""
+    from bs4 import BeautifulSoup
+    from bs4.builder import HTMLParserTreeBuilder
+    from bs4.exceptions import ParserRejectedMarkup
+
+    def parse(doc, builder=None):
+        with warnings.catch_warnings():
+            warnings.simplefilter("ignore")
+            s = BeautifulSoup(doc, "html.parser") if builder is None else BeautifulSoup(doc, builder=builder)
+        d = dump(s)
+        d["state"].pop("builder", None)
+        return d
+    for doc in SEQUEL_DOCS:
+        base = parse(doc)
+        for poison in SEQUEL_POISON:
+            for shared in (False, True):
+                b = HTMLParserTreeBuilder() if shared else None
+                try:
+                    with warnings.catch_warnings():
+                        warnings.simplefilter("ignore")
+                        BeautifulSoup(poison, "html.parser") if b is None else BeautifulSoup(poison, builder=b)
+                    rejected = False
+                except ParserRejectedMarkup:
+                    rejected = True
+                except Exception:  # noqa (reported by the construct stream)
+                    rejected = False
+                after = parse(doc, b)
+                ctx.case(("S", doc, poison, shared) if rejected else None)
+                ctx.count(f"sequel:{'shared-builder' if shared else 'fresh-builder'}:{'after-rejection' if rejected else 'after-success'}")
+                if after != base:
+                    diff = [k for k in after["state"] if after["state"][k] != base["state"].get(k)]
+                    ctx.violation("a document parsed after a rejected one differs from the same document parsed before it"
+                                  + (" (shared builder instance)" if shared else ""),
+                                  case={"op": "sequel", "doc": doc, "poison": poison if len(poison) < 100 else poison[:40] + "…", "shared_builder": shared,
+                                        "poison_full": enc_markup(poison)},
+                                  expected={"nodes": base["nodes"][:8]}, observed={"nodes": after["nodes"][:8], "state_fields_differing": diff},
+                                  stream="sequel")
+
+
+# --------------------------------------------------------------------------------------------
 # outside the quantifier: recorded only
 # --------------------------------------------------------------------------------------------
 def record_outside(ctx):
@@ -1111,6 +1511,9 @@ def aggregate(ctx, drv, cases, results):
             ctx.violation(f"BeautifulSoup({describe(markup)}, 'html.parser'{''.join(', %s=%r' % kv for kv in kwargs.items())[:120]}) raised "
                           f"{rec['outcome'][6:]}: {rec['exc']}", case=case, expected="a tree or ParserRejectedMarkup", observed=rec["outcome"][6:],
                           stream=stream, kf=classify_known(markup, kwargs, rec))
+        if rec.get("has_text") and rec["tok"] == "ok" and rec["outcome"] == "prm" and not capped(ctx, stream, "prm-without-cause"):
+            ctx.violation(f"BeautifulSoup({describe(markup)}, ...) raised ParserRejectedMarkup although UnicodeDammit produced text and the tokenizer "
+                          "alone accepts it: " + str(rec["exc"]), case=case, expected="a tree", observed="ParserRejectedMarkup", stream=stream)
         if rec["link"] and not capped(ctx, stream, "link"):
             ctx.violation("the constructed tree is not well linked: " + rec["link"], case=case, stream=stream)
         if rec["post"] and not capped(ctx, stream, "post:" + rec["post"][:30]):
@@ -1120,6 +1523,8 @@ def aggregate(ctx, drv, cases, results):
         if rec["tok"].startswith("other"):
             ctx.violation("measured hypothesis broken: CPython's tokenizer alone raised " + rec["tok"][6:], case=case, stream=stream,
                           no_failing_input=not rec["outcome"].startswith("other"))
+        if rec.get("tok_fact"):
+            ctx.violation("recorded fact about CPython's tokenizer broken: " + rec["tok_fact"], case=case, stream=stream, no_failing_input=True)
         if not rec["names_ok"]:
             ctx.violation("measured hypothesis broken: the tokenizer delivered a charref name outside [0-9]+|[xX][0-9a-fA-F]+", case=case, stream=stream,
                           no_failing_input=True)
@@ -1159,7 +1564,7 @@ def run(ctx: Ctx):
         "the handlers other than handle_charref do not raise (C04's models); measured by the outcome oracle",
         "feed writes only attributes that reset()/initialize_soup/the loop header re-assign: instrumented into Gen.feedTouches on every run and measured "
         "by the fault-injection stream (canonical dump incl. every attribute of the object and of the builder)",
-        "post-construction checks (decode/get_text/prettify/encode/copy/find_all) only for nesting depth < 200 (C11's recursion findings)",
+        "post-construction checks (decode/get_text/prettify/encode/copy/find_all) for nesting depth <= 6000 (copy is quadratic in depth beyond)",
     ]
     drv = Driver()
     cases = []
@@ -1177,12 +1582,14 @@ def run(ctx: Ctx):
     cases += gen_charrefs(ctx)
     cases += gen_structural(ctx)
     cases += gen_heuristics(ctx)
+    cases += gen_subclasses(ctx)
     bytes_cases = gen_bytes(ctx)
     cases += bytes_cases
     cases += gen_fuzz_str(ctx)
 
     # run (forked workers; results in input order, so the run is deterministic for a seed), in segments to bound memory
     nproc = min(16, os.cpu_count() or 1)
+    observed = {}
     pool = None
     if nproc > 1 and len(cases) > 400:
         import multiprocessing as mp
@@ -1193,16 +1600,23 @@ def run(ctx: Ctx):
             seg = cases[s0:s0 + SEG]
             chunks = [seg[i:i + 100] for i in range(0, len(seg), 100)]
             results = pool.map(eval_chunk, chunks, chunksize=1) if pool else [eval_chunk(c) for c in chunks]
-            results = [x for ch in results for x in ch]
+            for _, seen in results:
+                for pt, names in seen.items():
+                    observed.setdefault(pt, set()).update(names)
+            results = [x for ch, _ in results for x in ch]
             aggregate(ctx, drv, seg, results)
     finally:
         if pool:
             pool.close()
             pool.join()
 
+    check_recorded(ctx, observed, cases)
     stream_charref_direct(ctx, drv)
     stream_dammit(ctx, drv, bytes_cases)
+    stream_dammit_raising(ctx, drv, bytes_cases)
     stream_fault(ctx, drv)
+    stream_sequel(ctx)
+    stream_inject(ctx, drv)
     record_outside(ctx)
 
     # list one violation of every (stream, observation) class before the second of any: the replays written first are varied
@@ -1229,6 +1643,37 @@ def replay(path):
         print("outcome:", rec["outcome"], rec["exc"] or "", "| link:", rec["link"], "| post:", rec["post"])
         print("property demands: a tree (well linked, renderable, searchable, copyable) or ParserRejectedMarkup")
         return 0 if (rec["outcome"] in ("tree", "prm") and not rec["link"] and not rec["post"]) else 1
+    if c.get("op") == "inject":
+        from . import c06_envelope as E
+        table = E.class_table()
+        cls = {E.proto_name(k): k for k in list(table.values()) + [E.HarnessError, E.HarnessBaseError]}[c["class"]]
+        doc = dec_markup(c["markup"])
+        with E.inject(c["point"], cls):
+            got = E.verdict(doc)
+        print(f"every call of '{c['point']}' raises {c['class']} while constructing {describe(doc)}: the caller sees: {got}")
+        print("model / property:", v.get("model_reply") or v.get("expected"))
+        want = v.get("model_reply")
+        return 0 if (got == want if want else not got.startswith("escapes")) else 1
+    if c.get("op") == "sequel":
+        from bs4 import BeautifulSoup
+        from bs4.builder import HTMLParserTreeBuilder
+        poison = dec_markup(c["poison_full"])
+        b = HTMLParserTreeBuilder() if c["shared_builder"] else None
+        before = BeautifulSoup(c["doc"], "html.parser").decode()
+        try:
+            BeautifulSoup(poison, "html.parser") if b is None else BeautifulSoup(poison, builder=b)
+        except Exception as e:  # noqa
+            print("poison document:", type(e).__name__)
+        after = (BeautifulSoup(c["doc"], "html.parser") if b is None else BeautifulSoup(c["doc"], builder=b)).decode()
+        print("before:", before, "| after:", after)
+        return 0 if before == after else 1
+    if c.get("op") == "recorded" and "markup" in c:
+        from . import c06_envelope as E
+        seen = {}
+        with E.record(seen):
+            run_constructor(dec_markup(c["markup"]), dec_kwargs(c.get("kwargs", {})), post=False)
+        print("primitives raising on this input:", {k: sorted(x.__name__ for x in v2) for k, v2 in seen.items()})
+        return 1
     if c.get("op") == "charref-direct":
         from bs4 import BeautifulSoup
         from bs4.builder._htmlparser import BeautifulSoupHTMLParser
@@ -1269,6 +1714,12 @@ def replay(path):
             return 1
         print("final object identical to a clean parse of the accepted strategy")
         return 0
+    if c.get("op") == "dammit-raising":
+        print("UnicodeDammit on", describe(dec_markup(c["markup"])), dec_kwargs(c.get("kwargs", {})))
+        print("  codecs.lookup raises:", c["lookup_raises"], "| str() raises:", c["decode_raises"], "| generator raises:", c["generator_raises"],
+              "| log raises:", c["log_raises"])
+        print("  implementation:", v.get("observed"), "| model (dammitE):", v.get("model_reply"))
+        return 1
     if c.get("op") == "dammit":
         from bs4.dammit import UnicodeDammit
         markup, kw = dec_markup(c["markup"]), dec_kwargs(c.get("kwargs", {}))
